@@ -15,6 +15,7 @@ CLAIMS = {
 NA = {
  'C06': 'quantifies over thread schedules, data races and wall-clock promptness; sequential function contracts (CBMC dfcc has no thread support) cannot express or decide these',
  'C08': 'truth of mate announcements is a game-tree (minimax) property of a pruned heuristic search; no function contract short of a full functional specification of the search expresses it, and CBMC could not decide that one',
+ 'C19': 'the book loader is std::ifstream + std::map<uint64_t, std::vector<std::pair<Move,int>>> and the selection policies use std::mt19937 / std::max_element with lambdas: outside the C subset the extractor can produce and outside what CBMC contracts can state (file contents, probability distribution); only PolyglotBook::decode_move would be extractable and no check was built for it (code-reading observations in DESIGN.md 8.5 are not claims)',
  'C17': 'SAN printing/parsing lives in std::regex, std::string, std::optional, std::function and lambdas; no machine-checkable contract on the real code is within CBMC\'s reach',
 }
 extra = os.path.join(V, 'tools', 'claims.json')
@@ -38,7 +39,7 @@ for p in props:
 m = {'version': 1,
      'setup_cmd': 'python3 tools/setup_check.py',
      'hooks': {'guard': 'CHESSPLUSPLUS_VERIF',
-               'enable': '-DCHESSPLUSPLUS_VERIF on the clang (AST dump) and g++ (replay build) command lines of vcheck; no hook is currently needed because cxx2c reads private members from the AST',
+               'enable': '-DCHESSPLUSPLUS_VERIF on the clang (AST dump) and g++ (replay build) command lines of vcheck; the only hook is `friend struct VerifAccess;` in engine::Position and engine::HashKey (replay programs load counterexample states through it); cxx2c itself reads private members from the AST',
                'baseline_off_cmd': "sh -c 'rm -rf /tmp/cpp_baseline_off && cmake -S /repo -B /tmp/cpp_baseline_off -G Ninja -DFETCHCONTENT_FULLY_DISCONNECTED=ON -DFETCHCONTENT_SOURCE_DIR_GOOGLETEST=/usr/src/googletest -DCMAKE_CXX_FLAGS=-Wno-error >/dev/null && cmake --build /tmp/cpp_baseline_off -j16 >/dev/null && /tmp/cpp_baseline_off/unitTests; rc=$?; rm -rf /tmp/cpp_baseline_off; exit $rc'",
                'source_commits': json.load(open(os.path.join(V, 'tools', 'hook_commits.json'))) if os.path.exists(os.path.join(V, 'tools', 'hook_commits.json')) else [],
                'add_only': True},
